@@ -15,6 +15,7 @@ mod c15;
 mod c16;
 mod c17;
 mod c18;
+mod c19;
 mod schema;
 mod c05;
 mod c06;
@@ -76,6 +77,7 @@ fn main() {
         "c16" => c16::run(&args),
         "c17" => c17::run(&args),
         "c18" => c18::run(&args),
+        "c19" => c19::run(&args),
         "c05" => c05::run(&args),
         "c06" => c06::run(&args),
         "c06b64" => c06::run_b64(&args),
